@@ -139,10 +139,15 @@ func failoverRaceOps() []raceOp {
 
 func makeFailoverInst(variant int, syncRead bool) func() *raceInst {
 	return func() *raceInst {
-		kind := []string{kindSharded, kindSync, kindShardedOf}[variant]
+		kind := variantKinds[variant]
 		in := makeBackendInst(kind, cache.EvictMostExpired)()
 
-		if variant == 2 {
+		if variant >= 3 {
+			f := cache.NewFailoverOf[any](cache.FailoverConfigOf[any]{
+				Backend: in.be.Raw().(cache.ReadWriter), SyncRead: syncRead, UpdateTTL: time.Millisecond, FailedUpdateTTL: time.Millisecond,
+			}.Use)
+			in.fe = foOfAny{f}
+		} else if variant == 2 {
 			f := cache.NewFailoverOf[string](cache.FailoverConfigOf[string]{
 				Backend: in.be.Raw().(*cache.ShardedMapOf[string]), SyncRead: syncRead, UpdateTTL: time.Millisecond, FailedUpdateTTL: time.Millisecond,
 			}.Use)
@@ -210,7 +215,9 @@ var raceSubjects = func() []raceSubject {
 		subs = append(subs, raceSubject{name: vn, make: makeFailoverInst(v, false), ops: failoverRaceOps()})
 	}
 
-	subs = append(subs, raceSubject{name: "Failover/ShardedMap/SyncRead", make: makeFailoverInst(0, true), ops: failoverRaceOps()})
+	for v, vn := range variantNames {
+		subs = append(subs, raceSubject{name: vn + "/SyncRead", make: makeFailoverInst(v, true), ops: failoverRaceOps()})
+	}
 	subs = append(subs, raceSubject{name: "InvalidationIndex", make: makeIndexInst, ops: indexRaceOps()})
 	subs = append(subs, raceSubject{name: "Invalidator", make: makeInvalidatorInst, ops: invalidatorRaceOps()})
 	subs = append(subs, raceSubject{name: "Invalidator/default-interval", make: func() *raceInst {
